@@ -112,6 +112,8 @@ def run(ctx, only_cases=None):
     retain = retain_cases(ctx.rng, 6000 if thorough else 1500) if only_cases is None else [c for c in only_cases if c["mode"] == "retain"]
     r_out = vlib.run_harness(binary, retain, timeout=1500) if retain else []
     s_out = vlib.run_harness(binary, streams, timeout=1500) if streams else []
+    for o in s_out:
+        o["obs"] = o.get("obs") or []
     b_out = vlib.run_harness(binary, bombs, timeout=1500) if bombs else []
     d_out = vlib.run_harness(binary, disp, timeout=1500) if disp else []
 
@@ -134,7 +136,7 @@ def run(ctx, only_cases=None):
     # model vs implementation on the stream cases
     mism = []
     terms = []
-    model_idx = [i for i, o in enumerate(s_out) if o.get("obs")]   # a run that panicked / timed out has no observation to diff
+    model_idx = [i for i, o in enumerate(s_out) if o["obs"]]   # a run that panicked / timed out has no observation to diff
     for i in model_idx:
         c1 = {"mode": "raw", "cuts": streams[i]["cuts"]}
         terms.append(c01.case_value(c1, s_out[i]))
